@@ -100,6 +100,10 @@ def throughWire (w : ProtoWire.Op) : Option ProtoWire.Op :=
 
 def viaWire (op : FeedOp) : Option FeedOp := (toWire op).bind fun w => (throughWire w).bind fromWire
 
+/-- the batches of a run (records of one call, time of the call), record by record through the bytes -/
+def batchesViaWire (bs : List (List FeedOp × Int)) : Option (List (List FeedOp × Int)) :=
+  bs.mapM fun b => (b.1.mapM viaWire).map fun ops => (ops, b.2)
+
 /-- the record is one the wire carries unchanged, and its text is the canonical rendering -/
 def wireNormal (op : FeedOp) : Bool :=
   match toWire op with
